@@ -10,6 +10,7 @@ atomic call on one cache:
            call returns its own result.
   chdir  - the archive is opened by a RELATIVE name and the program changes its current directory while the function is in use: nothing
            that reached the archive is evaluated again, no second store appears, a pickled handle still addresses the same store.
+  hashraises - a `safe` decorator with the raw keymap and an argument whose __hash__ raises (TypeError, KeyError, ValueError, RuntimeError).
   reuse  - ONE decorator object applied to two functions (`memo = lru_cache(maxsize=3); f = memo(f0); g = memo(g0)`): each
            function's results are its own, each has its own account in info(), clear() of one leaves the other's counters.
 
@@ -53,6 +54,7 @@ def gen(tier, idx):
     if idx % 8 == 1: scen = 'reuse'
     if idx % 8 == 5: scen = 'names'
     if idx % 8 == 3: scen = 'chdir'
+    if idx % 16 == 7: scen = 'hashraises'
     algo = ALGOS[(idx // 4) % 6]; safe = (idx // 24) % 2 == 1
     cfg = dict(scen=scen, algo=algo, safe=safe, seed=r.randrange(10 ** 6), maxsize=r.choice([1, 2, 3, 3, 5]), purge=r.random() < 0.35)
     if scen == 'reuse': cfg.update(algo=ALGOS[(idx // 8) % 6], safe=(idx // 48) % 2 == 1)
@@ -62,6 +64,10 @@ def gen(tier, idx):
         cfg.update(algo=['lru', 'lfu', 'mru', 'rr', 'no'][(idx // 8) % 5], safe=(idx // 40) % 2 == 1, arch='dir', purge=False, maxsize=r.choice([1, 2]),
                    keymap=['string', 'raw', 'stringr'][(idx // 8) % 3], calls=[r.randrange(len(NAME_ARGS)) for _ in range(24)])
     if scen == 'names': pass
+    elif scen == 'hashraises':
+        # a `safe` decorator, the raw keymap, an argument whose __hash__ raises (not only TypeError: any exception): the function's result is returned
+        cfg.update(algo=ALGOS[(idx // 16) % 6], safe=True, arch=['none', 'dict'][(idx // 96) % 2], purge=False,
+                   exc=['TypeError', 'KeyError', 'ValueError', 'RuntimeError'][(idx // 16) % 4], calls=[r.randrange(4) for _ in range(6)])
     elif scen == 'chdir':
         # the archive is named RELATIVE to the current directory, and the program changes directory while the function is in use
         cfg.update(algo=['lru', 'lfu', 'mru', 'rr', 'inf', 'no'][(idx // 8) % 6], safe=(idx // 48) % 2 == 1, purge=(idx // 96) % 2 == 1, maxsize=r.choice([1, 2, 3]),
@@ -209,6 +215,29 @@ def run_case(cfg):
                         cfg['arch'], len(dict(h.items())), len(ref_), len(want)), arch=cfg['arch'])
             except Exception as e:
                 bad('C04', 'chdir-unpickle-raises', '%s: %s' % (type(e).__name__, str(e)[:80]), arch=cfg['arch'])
+        elif cfg['scen'] == 'hashraises':
+            from klepto.keymaps import keymap
+            E = dict(TypeError=TypeError, KeyError=KeyError, ValueError=ValueError, RuntimeError=RuntimeError)[cfg['exc']]
+            class Unhash(object):
+                def __init__(self, n): self.n = n
+                def __hash__(self): raise E('no hash for %d' % self.n)
+                def __eq__(self, o): return isinstance(o, Unhash) and o.n == self.n
+            evals = []
+            def h(u): evals.append(u.n); return 'v%d' % u.n
+            kw = dict(keymap=keymap())
+            if cfg['algo'] not in ('inf', 'no'): kw.update(maxsize=cfg['maxsize'], purge=False)
+            if cfg['arch'] != 'none': kw['cache'] = kcache(archive=make_archive('dict', tmp, 'h'))
+            f = D(**kw)(h)
+            for x in cfg['calls']:
+                n0 = len(evals)
+                try:
+                    got = f(Unhash(x))
+                    if got != 'v%d' % x or len(evals) != n0 + 1:
+                        bad('C16', 'safe-unhashable-wrong', 'h(<unhashable %d>) returned %r after %d evaluations' % (x, got, len(evals) - n0), exc=cfg['exc'])
+                except Exception as e:
+                    bad('C16', 'safe-unhashable-raises', 'the argument\'s __hash__ raises %s; the safe decorator raised %s: %s instead of returning the function\'s result (evaluations: %d)' % (
+                        cfg['exc'], type(e).__name__, str(e)[:60], len(evals) - n0), exc=cfg['exc'], got=type(e).__name__)
+                    break
         elif cfg['scen'] == 'names':
             from klepto.keymaps import stringmap, keymap
             km = dict(string=lambda: stringmap(), raw=lambda: keymap(), stringr=lambda: stringmap(encoding='repr'))[cfg['keymap']]
@@ -315,7 +344,7 @@ def explore(prop, tier, offset=0):
         tags[o['cfg']['scen']] += 1; tags['algo=' + o['cfg']['algo']] += 1
         for v in o['viol']:
             if v['prop'] in (prop, '*'): viols.append(dict(v, prop=prop, i=0, cfg=o['cfg'], ops=[]))
-    n = sum(tags[s] for s in ('recur', 'twin', 'unser', 'reuse', 'names', 'chdir'))
+    n = sum(tags[s] for s in ('recur', 'twin', 'unser', 'reuse', 'names', 'chdir', 'hashraises'))
     # the recursive traces against the model (flat history of completions)
     import run_wrapper as rw
     trs = [o['trace'] for o in res if o.get('trace') is not None]
